@@ -5,7 +5,8 @@
 From PM Require Import Model.Prelude Model.Domain Model.Constraint Model.Automaton Model.Traversal
   Model.DomString Model.DomMatrix Cert.LabCheck Cert.CharCert Cert.ExampleAut
   Proofs.RunSound Proofs.LawfulDomains Proofs.BindMapMatrixProofs
-  Spec.Occ Proofs.OccProofs Proofs.CellsProofs Proofs.OccString Proofs.OccMatrix.
+  Spec.Occ Proofs.OccProofs Proofs.CellsProofs Proofs.OccString Proofs.OccMatrix
+  Model.DomPGKeys Model.DomPG Proofs.PGLawful.
 
 (** generic over the domain: lawful binding maps, any host, any execution *)
 Theorem c01_run_sound :
@@ -115,9 +116,24 @@ Example c01_example :
      = Ok [(1, SBound 0 2); (2, SBound 0 2); (0, SBound 0 1); (0, SBound 1 1); (0, SBound 2 1)]%N.
 Proof. split; vm_compute; reflexivity. Qed.
 
+(** Port graphs (host side modelled in Model/DomPG.v): every match reported on an
+    automaton that passes lab_ok (with a not-equal constraint split into its
+    pairwise atoms) satisfies every constraint of its pattern's constraint vector
+    under the reported bindings, which bind all their arguments. *)
+Theorem c01_portgraph_run_sound :
+  forall (A : automaton pgkey pgpred) (L : labelling) (cs : list (list pgconstraint)),
+    lab_ok pg_dom (fun _ => true) pg_atoms A L cs = true ->
+    forall (h : pghost) (fuel : nat) (ms : list (N * pgmap)),
+      run pg_dom fuel A h = Ok ms ->
+      forall pm, In pm ms ->
+        exists cp, nth_error cs (N.to_nat (fst pm)) = Some cp
+                   /\ forall c, In c cp -> holds pg_dom h c (snd pm).
+Proof. exact pg_run_sound. Qed.
+
 Print Assumptions c01_run_sound.
 Print Assumptions c01_string_run_sound.
 Print Assumptions c01_matrix_run_sound.
 Print Assumptions c01_string.
 Print Assumptions c01_matrix.
 Print Assumptions c01_matrix_pinned_refuted.
+Print Assumptions c01_portgraph_run_sound.
